@@ -3,7 +3,7 @@
 
 use crate::driver::Cfg;
 use crate::engine::Plan;
-use crate::histx::{add_quiet, enum_commit_histories, sort_by_bound, via_overlays, with_control_everywhere};
+use crate::histx::{add_io_reverse, add_quiet, enum_commit_histories, sort_by_bound, via_overlays, with_control_everywhere};
 use serde_json::{json, Value};
 
 fn acts(list: &[(&str, Option<usize>)]) -> Vec<Value> {
@@ -163,6 +163,7 @@ fn plan_c01(thorough: bool) -> Plan {
     cfg3.cc = 3;
     cases.extend(enum_commit_histories(2, 6, if thorough { 3 } else { 1 }, &a_br, &mk_case("branch", vec!["seed:0,1,299,300,598,599"], &cfg3, "values", false)));
     add_quiet(&mut cases, if thorough { 2 } else { 4 });
+    add_io_reverse(&mut cases, if thorough { 5 } else { 20 });
     sort_by_bound(&mut cases);
     let mut p = Plan::new(
         cases,
@@ -252,6 +253,7 @@ fn plan_c02(thorough: bool) -> Plan {
         }
     }
     add_quiet(&mut cases, if thorough { 1 } else { 3 });
+    add_io_reverse(&mut cases, if thorough { 5 } else { 15 });
     cases.extend(crate::schedx::worker_schedule_cases(thorough));
     sort_by_bound(&mut cases);
     let mut p = Plan::new(
@@ -330,6 +332,7 @@ fn plan_c16(thorough: bool) -> Plan {
         }
     }
     add_quiet(&mut cases, if thorough { 1 } else { 3 });
+    add_io_reverse(&mut cases, if thorough { 5 } else { 15 });
     sort_by_bound(&mut cases);
     let mut p = Plan::new(
         cases,
